@@ -2,7 +2,7 @@
 requirement of the property statements (req) and the outcome the constructor model predicts (lval); every document is
 printed, loaded with the real classes under audit / canary instruments, and the distinct (requirement, observation) pairs
 are judged by TLC (spec/Trace_Confine.tla, H_Confinement.tla)."""
-import builtins, datetime, os, sys, json
+import builtins, datetime, os, sys, json, time
 from . import tlc, mbt, trace
 from .common import use_repo, VERIF, SEED
 
@@ -15,7 +15,10 @@ PYEXACT = ['py/none', 'py/bool', 'py/str', 'py/unicode', 'py/bytes', 'py/int', '
 PYPREFIX = ['py/name:', 'py/module:', 'py/object:', 'py/object/new:', 'py/object/apply:']
 LOOKALIKE = ['py/name', 'py/', 'py/objectx:', 'py/object/applyx:', 'lpy/object/apply:', 'unknown', 'local', 'localpct']
 ALLNAMES = ['res', 'rescls', 'noattr', 'lazy', 'builtin', 'unimp', 'unimpsub', 'missing', 'iter', 'subunimp', 'pct', 'trap',
-            'alias']
+            'alias', 'mapobj', 'unhash']
+# the name classes that denote an EXISTING OBJECT of an imported module (function, class, lazily served attribute, builtin,
+# iterator instance, generic object, Mapping instance, unhashable object)
+OBJNAMES = ['res', 'rescls', 'lazy', 'builtin', 'iter', 'trap', 'mapobj', 'unhash']
 
 BASETEXT = {b: Y + b for b in CORE12 + REPO3 + ['unknown']}
 BASETEXT.update({b: Y + 'python/' + b[3:] for b in PYEXACT + PYPREFIX + ['py/name', 'py/', 'py/objectx:', 'py/object/applyx:']})
@@ -24,11 +27,12 @@ NAMETEXT = {'res': 'verif_canary.fire', 'rescls': 'verif_canary.Obj', 'noattr': 
             'lazy': 'verif_canary.lazyattr', 'builtin': 'vcanary_bfire', 'unimp': 'verif_unimported.fire',
             'unimpsub': 'verif_unimp_pkg.sub.fire', 'missing': 'verif_no_such_mod.fire', 'iter': 'verif_canary.ITER',
             'subunimp': 'verif_pkg.plugin', 'pct': 'verif_canary.f%25s', 'trap': 'verif_canary.TRAP',
-            'alias': 'verif_no_such_alias.fire', 'e': ''}        # 'alias' is chosen by Instruments (alias_name)
+            'alias': 'verif_no_such_alias.fire', 'mapobj': 'verif_canary.MAPOBJ', 'unhash': 'verif_canary.UNHASH',
+            'e': ''}        # 'alias' is chosen by Instruments (alias_name)
 MODTEXT = {'res': 'verif_canary', 'rescls': 'verif_canary', 'noattr': 'verif_canary', 'lazy': 'verif_canary',
            'builtin': 'builtins', 'unimp': 'verif_unimported', 'unimpsub': 'verif_unimp_pkg.sub',
            'missing': 'verif_no_such_mod', 'iter': 'verif_canary', 'subunimp': 'verif_pkg', 'pct': 'verif_canary',
-           'trap': 'verif_canary', 'alias': 'verif_no_such_alias', 'e': ''}
+           'trap': 'verif_canary', 'alias': 'verif_no_such_alias', 'mapobj': 'verif_canary', 'unhash': 'verif_canary', 'e': ''}
 GOOD = {'null': '~', 'bool': 'yes', 'int': '12', 'float': '1.5', 'binary': 'aGk=', 'timestamp': '2001-01-01',
         'py/none': 'null', 'py/bool': 'true', 'py/bytes': 'aGk=', 'py/int': '7', 'py/long': '8', 'py/float': '2.5',
         'py/complex': '1+2j'}
@@ -202,7 +206,7 @@ class Instruments:
         self.pkg = verif_pkg
         builtins.vcanary_bfire = verif_canary.fire
         self.attrs = {id(verif_canary.fire), id(verif_canary.Obj), id(verif_canary.LAZY), id(verif_canary.ITER),
-                      id(verif_canary.TRAP)}
+                      id(verif_canary.TRAP), id(verif_canary.MAPOBJ), id(verif_canary.UNHASH)}
         self.events = []
         self.on = False
         sys.addaudithook(self._hook)
@@ -391,25 +395,42 @@ LOADERS = ['BaseLoader', 'CBaseLoader', 'SafeLoader', 'CSafeLoader', 'FullLoader
            'Loader', 'CLoader']
 ENTRY_CLASS = {'safe_load': 'SafeLoader', 'safe_load_all': 'SafeLoader', 'full_load': 'FullLoader', 'full_load_all': 'FullLoader'}
 HIST_DOCS = ['%s x', '%s {a: b}', '%s [a]', '[{k: %s {a: b}}, c]']
+ALLOPS = ['yobj', 'yobjsub', 'ctor', 'multi', 'modctor', 'modctorx', 'modmulti', 'subctor', 'load']
 PRELUDE_CONFIGS = {
-    'hist2': dict(MaxSteps=2, Ops=['yobj', 'ctor', 'multi', 'modctor', 'modctorx', 'modmulti', 'subctor'],
+    # every ordered pair of customisation steps
+    'hist2': dict(MaxSteps=2, Ops=ALLOPS,
                   Singles=['SafeLoader', 'CSafeLoader', 'BaseLoader', 'FullLoader', 'CFullLoader', 'UnsafeLoader'],
                   Lists='{{"SafeLoader"}, {"SafeLoader", "CSafeLoader"}, {"BaseLoader"}, {"FullLoader", "UnsafeLoader"}}',
                   SubBases=['SafeLoader', 'BaseLoader', 'FullLoader']),
-    'hist3': dict(MaxSteps=3, Ops=['yobj', 'ctor', 'modctor', 'subctor'],
+    # class-definition histories: YAMLObject classes with / without a yaml_loader of their own, subclasses of earlier ones,
+    # module-level registrations and rounds of loads, in every order
+    'hist3q': dict(MaxSteps=3, Ops=['yobj', 'yobjsub', 'modctor', 'load'], Singles=['SafeLoader'],
+                   Lists='{{"SafeLoader", "CSafeLoader"}}', SubBases=[]),
+    'hist4q': dict(MaxSteps=4, Ops=['yobj', 'yobjsub', 'load'], Singles=['SafeLoader', 'CFullLoader'],
+                   Lists='{{"SafeLoader", "CSafeLoader"}}', SubBases=[]),
+    'hist3': dict(MaxSteps=3, Ops=['yobj', 'yobjsub', 'ctor', 'modctor', 'subctor', 'load'],
                   Singles=['SafeLoader', 'CSafeLoader', 'BaseLoader', 'CFullLoader', 'UnsafeLoader'],
                   Lists='{{"SafeLoader", "CSafeLoader"}, {"BaseLoader", "CBaseLoader"}, {"FullLoader", "UnsafeLoader"}}',
                   SubBases=['SafeLoader', 'FullLoader']),
 }
-PRELUDE_TIERS = {'quick': ['hist2'], 'thorough': ['hist2', 'hist3']}
+
+
+def hist_steps(st):
+    """the history of a ConstructPrelude state as plain JSON-able steps"""
+    return [{'op': s['op'], 'on': sorted(tlaset(s['on'])), 'form': s['form'], 'par': s['par']} for s in st['hist']]
+
+
+def hist_text(hist):
+    return ' ; '.join('%s%s/%s/%s' % (s['op'], '(base=step %d)' % s['par'] if s['op'] == 'yobjsub' else '', s['form'], ','.join(s['on'])) for s in hist)
 
 
 def apply_step(yaml, i, s, keep):
-    """perform customisation step number i of a history on the live classes; returns (document tag, table key, kind)"""
+    """perform customisation step number i of a history on the live classes; returns (document tag, table key, kind);
+    keep: step number -> class object defined by the step"""
     import verif_canary
     tag = '!verif_h%d' % i
     op, form = s['op'], s['form']
-    ls = [getattr(yaml, n) for n in sorted(tlaset(s['on']))]
+    ls = [getattr(yaml, n) for n in s['on']]
 
     def fire(loader, node):
         return verif_canary.fire()
@@ -428,7 +449,15 @@ def apply_step(yaml, i, s, keep):
             ns['yaml_loader'] = ls[0]
         elif form == 'list':
             ns['yaml_loader'] = list(ls)
-        keep.append(type('VerifHObj', (yaml.YAMLObject,), ns))
+        keep[i] = type('VerifHObj%d' % i, (yaml.YAMLObject,), ns)
+        return tag, tag, 'exact'
+    if op == 'yobjsub':                      # a subclass of the class of step par: own tag, yaml_loader inherited or its own
+        ns = {'yaml_tag': tag}
+        if form == 'one':
+            ns['yaml_loader'] = ls[0]
+        elif form == 'list':
+            ns['yaml_loader'] = list(ls)
+        keep[i] = type('VerifHObj%d' % i, (keep[s['par']],), ns)
         return tag, tag, 'exact'
     if op == 'ctor':
         ls[0].add_constructor(tag, fire)
@@ -446,80 +475,102 @@ def apply_step(yaml, i, s, keep):
         yaml.add_multi_constructor(tag + ':', mfire)
         return tag + ':sfx', tag + ':', 'multi'
     if op == 'subctor':
-        sub = type('VerifSub%d' % i, (ls[0],), {})
-        sub.add_constructor(tag, fire)
-        keep.append(sub)
+        keep[i] = type('VerifSub%d' % i, (ls[0],), {})
+        keep[i].add_constructor(tag, fire)
         return tag, tag, 'exact'
     raise SystemExit('machinery failure: unknown customisation step %r' % (s,))
 
 
-def replay_history(yaml, ins, st, entries):
-    """(in a forked child) perform the history, compare the live tables with the model's, load documents that carry each
-    step's tag through every confined entry point"""
-    keep, out = [], {'pairs': [], 'drift': [], 'loads': 0}
-    hist = st['hist']
-    tags = [apply_step(yaml, i + 1, s, keep) for i, s in enumerate(hist)]
-    text = ' ; '.join('%s/%s/%s' % (s['op'], s['form'], ','.join(sorted(tlaset(s['on'])))) for s in hist)
-    for l in LOADERS:
+def replay_history(yaml, ins, hist, req, ltab, entries):
+    """(in a forked child) perform the history; at every 'load' step and at the end load documents that carry the tag of
+    each step so far through every entry point (unsafe classes first, not judged); compare the live tables with the
+    model's.  req[loader][i], ltab[loader]: values of the ConstructPrelude state (None: observe only)."""
+    keep, out = {}, {'pairs': [], 'drift': [], 'loads': 0}
+    text = hist_text(hist)
+    tags = []
+
+    def loads(upto, when):
+        for i, t in enumerate(tags[:upto]):
+            if t is None:
+                continue
+            for d in HIST_DOCS:
+                doc = d % t[0] + '\n'
+                for c, entry in entries:
+                    o = ins.observe(entry, doc)
+                    out['loads'] += 1
+                    if c == 'Unsafe':
+                        continue
+                    r = req[ENTRY_CLASS.get(entry, entry)][i] if req is not None else {'mustErr': False, 'free': False}
+                    out['pairs'].append([[c, bool(r['mustErr']), False, o['st'], o['ex'], list(o['ty']), list(o['eff']), bool(r['free'])],
+                                         doc, entry, when])
+    for i, s in enumerate(hist):
+        if s['op'] == 'load':
+            tags.append(None)
+            loads(i, i + 1)
+        else:
+            tags.append(apply_step(yaml, i + 1, s, keep))
+    loads(len(hist), 0)
+    for l in LOADERS if ltab is not None else []:
         L = getattr(yaml, l)
-        live = sorted(i + 1 for i, (_t, key, kind) in enumerate(tags)
-                      if key in (L.yaml_constructors if kind == 'exact' else L.yaml_multi_constructors))
-        model = sorted(tlaset(st['ltab'][l]))
+        live = sorted(i + 1 for i, t in enumerate(tags)
+                      if t is not None and t[1] in (L.yaml_constructors if t[2] == 'exact' else L.yaml_multi_constructors))
+        model = sorted(tlaset(ltab[l]))
         if live != model:
             out['drift'].append('prelude: after [%s] %s sees the registrations of steps %s, ConstructPrelude.tla says %s' % (text, l, live, model))
-    for i, (tag, _key, _kind) in enumerate(tags):
-        for c, entry in entries:
-            r = st['req'][ENTRY_CLASS.get(entry, entry)][i]
-            for d in HIST_DOCS:
-                doc = d % tag + '\n'
-                o = ins.observe(entry, doc)
-                out['loads'] += 1
-                out['pairs'].append([[c, bool(r['mustErr']), False, o['st'], o['ex'], list(o['ty']), list(o['eff']), bool(r['free'])],
-                                     'after [%s]: %s' % (text, doc), entry])
     return out
+
+
+def in_child(fn):
+    """run fn() in a forked child (a history mutates class-level state), return its JSON-able result"""
+    r, w = os.pipe()
+    pid = os.fork()
+    if pid == 0:
+        code = 1
+        try:
+            os.close(r)
+            with os.fdopen(w, 'w') as f:
+                json.dump(fn(), f)
+            code = 0
+        finally:
+            os._exit(code)
+    os.close(w)
+    with os.fdopen(r) as f:
+        data = f.read()
+    _pid, status = os.waitpid(pid, 0)
+    if status != 0 or not data:
+        return None
+    return json.loads(data)
 
 
 def hist_work(states, extra):
     yaml = use_repo()
     ins = Instruments(yaml)
     classes = extra['classes']
-    entries = [(c, e) for c, e in ENTRY if c in classes]
-    res = {'n': 0, 'loads': 0, 'pairs': {}, 'drift': {}, 'samples': [], 'optin': 0}
+    entries = [(c, e) for c, e in ENTRY if c in classes or c == 'Unsafe']
+    res = {'n': 0, 'loads': 0, 'pairs': {}, 'drift': {}, 'samples': [], 'optin': 0, 'optin_effective': 0, 'nontrivial': 0}
     for st in states:
         res['n'] += 1
         if not st['hist']:
             continue
-        r, w = os.pipe()
-        pid = os.fork()
-        if pid == 0:                                  # the history mutates class-level state: one child per history
-            code = 1
-            try:
-                os.close(r)
-                with os.fdopen(w, 'w') as f:
-                    json.dump(replay_history(yaml, ins, st, entries), f)
-                code = 0
-            finally:
-                os._exit(code)
-        os.close(w)
-        with os.fdopen(r) as f:
-            data = f.read()
-        _pid, status = os.waitpid(pid, 0)
-        if status != 0 or not data:
-            raise SystemExit('machinery failure: replay of customisation history %r failed in the child' % (st['hist'],))
-        out = json.loads(data)
+        hist = hist_steps(st)
+        out = in_child(lambda: replay_history(yaml, ins, hist, st['req'], st['ltab'], entries))
+        if out is None:
+            raise SystemExit('machinery failure: replay of customisation history %r failed in the child' % (hist,))
         res['loads'] += out['loads']
-        for k, doc, entry in out['pairs']:
+        res['nontrivial'] += any(k[1] for k, _d, _e, _w in out['pairs'])
+        for k, doc, entry, when in out['pairs']:
             key = (k[0], k[1], k[2], k[3], k[4], tuple(k[5]), tuple(k[6]), k[7])
             p = res['pairs'].get(key)
             if p is None:
-                res['pairs'][key] = p = {'count': 0, 'doc': doc, 'entry': entry}
+                res['pairs'][key] = p = {'count': 0, 'doc': doc, 'entry': entry, 'hist': hist, 'when': when}
             p['count'] += 1
             res['optin'] += k[7]
+            res['optin_effective'] += bool(k[7] and (k[6] or k[3] != 'ok' or set(k[5]) - {'str', 'list', 'dict'}))
         for d in out['drift']:
             q = res['drift'].setdefault(d.split(' after [')[0] + ' ' + d.split('] ', 1)[1], {'count': 0, 'doc': d, 'entry': '-'})
             q['count'] += 1
-        if len(res['samples']) < 1 and len(st['hist']) >= extra['sample_len']:
-            res['samples'].append({'history': out['pairs'][0][1].split(':')[0] if out['pairs'] else '', 'loads': out['loads']})
+        if len(res['samples']) < 1 and len(hist) >= extra['sample_len']:
+            res['samples'].append({'history': hist_text(hist), 'loads': out['loads']})
     return res
 
 
@@ -629,8 +680,28 @@ def tlaset(v):
     return v[1] if isinstance(v, tuple) and v and v[0] == 'set' else v
 
 
-def run(v, pid, classes, configs, loader_names):
-    """v: Verdict; classes: model classes judged by this property; configs: list of (name, constants dict)"""
+# development aids (shared machine): replay processes, TLC runs side by side
+PROCS = int(os.environ.get('VERIF_C01_PROCS', '16'))
+JVMS = int(os.environ.get('VERIF_C01_JVMS', '8'))
+
+
+def _tlc_job(job):
+    """(in a forked launcher process) one TLC run; the launcher processes run side by side"""
+    r = tlc.run(job['module'], cfg=job['cfg'], dump=job['dump'], tag=job['tag'], timeout=job['timeout'], constants=job['constants'],
+                coverage=False, workers=job['workers'], heap='2g' if job['kind'] == 'doc' else '1g',
+                env={'JAVA_TOOL_OPTIONS': '-XX:ParallelGCThreads=2 -XX:CICompilerCount=2'})    # a dozen JVMs side by side
+    r.job = job['name']
+    if len(r.out) > 20000:
+        r.out = r.out[:4000] + '\n...\n' + r.out[-12000:]
+    return r
+
+
+def run(v, pid, classes, configs, preludes=()):
+    """v: Verdict; classes: model classes judged by this property; configs: list of (name, constants dict) of Construct.tla;
+    preludes: list of (name, constants dict) of ConstructPrelude.tla.
+    All TLC runs are started side by side (launcher processes); every dump is replayed as soon as its run completes."""
+    import glob, multiprocessing as mp
+    from concurrent.futures import ProcessPoolExecutor, as_completed
     yaml = use_repo()
     keep = customise(yaml)
     tables, extra_text = live_tables(yaml)
@@ -649,18 +720,11 @@ def run(v, pid, classes, configs, loader_names):
                 if b.startswith('x'):
                     extra[t['cls']].add(b)
     allextra = sorted(set().union(*extra.values()))
-    # vacuity guards: in the model the unsafe class does have effects, and without the named exemption the known
-    # structural-use finding is a TLC counterexample
+    # vacuity guards: in the model the unsafe class does have effects, without the named exemption the known
+    # structural-use finding is a TLC counterexample, and opting a confined class in exists in the prelude model
     small = {'Kinds': tla_set(['s', 'q', 'm']), 'LeafKinds': tla_set(['s', 'q', 'm']), 'KeyFillers': tla_set(['k', 'M', 'V']), 'MaxNodes': 2, 'LeafBases': tla_set(['str', 'local', 'py/object/apply:']), 'ParentBases': tla_set(['map', 'seq']),
              'Names': tla_set(['res']), 'Vals': tla_set(['g', 'e']), 'MaxEntries': 1, 'MustChain': 'TRUE', 'ConvFail': '"err"'}
-    for cfg, inv in (('MC_Construct_negctl1.cfg', 'UnsafeInert'), ('MC_Construct_negctl2.cfg', 'ConfinedStrict')):
-        r = tlc.run('Construct', cfg=cfg, tag='%s_%s' % (pid, inv), timeout=600, constants=small, coverage=False, workers=4)
-        if inv not in r.violated:
-            print(r.out[-2000:])
-            raise SystemExit('machinery failure: negative control %s was not violated (the model is vacuous)' % inv)
-    states = trans = loads = nontrivial = 0
-    pairs, drift, samples = {}, {}, []
-    unsafe_eff = 0
+    jobs = []
     for name, consts in configs:
         consts = dict(consts)
         if consts['MaxNodes'] <= 2 and consts['MaxEntries'] == 1 or consts['MaxNodes'] == 1:
@@ -669,44 +733,84 @@ def run(v, pid, classes, configs, loader_names):
         k.update({'ExtraBase': tla_set(sorted(extra['Base'])), 'ExtraSafe': tla_set(sorted(extra['Safe'])),
                   'ExtraFull': tla_set(sorted(extra['Full'])), 'ExtraUnsafe': tla_set(sorted(extra['Unsafe'])),
                   'ConvFail': '"err"'})
-        r = tlc.run('Construct', cfg='MC_Construct.cfg', dump=True, tag='%s_%s' % (pid, name), timeout=3000, constants=k, coverage=False)
-        if r.violated:
-            print(r.out[-3000:])
-            raise SystemExit('machinery failure: Construct.tla violates %s in configuration %s (L does not refine H in the model)' % (r.violated, name))
-        tlc.require_ok(r, 'Construct/' + name)
-        states += r.distinct
-        trans += r.generated
-        out = mbt.pmap(work, r.dump, {'classes': classes, 'extra_text': extra_text, 'sample_nodes': consts['MaxNodes']})
-        n = sum(o['n'] for o in out)
-        if n != r.distinct:
-            raise SystemExit('machinery failure: replayed %d documents, TLC found %d states' % (n, r.distinct))
-        for o in out:
-            loads += o['loads']
-            nontrivial += o['nontrivial']
-            unsafe_eff += o['unsafe_eff']
-            samples += o['samples'][:1]
-            for kx, p in o['pairs'].items():
-                q = pairs.setdefault(kx, {'count': 0, 'doc': p['doc'], 'entry': p['entry'], 'config': name})
+        jobs.append(dict(name=name, kind='doc', module='Construct', cfg='MC_Construct.cfg', dump=True, constants=k, timeout=3000,
+                         workers=4 if consts['MaxNodes'] > 1 else 2, consts=consts))
+    for name, consts in preludes:
+        k = {a: (tla_set(b) if isinstance(b, list) else b) for a, b in consts.items()}
+        jobs.append(dict(name=name, kind='hist', module='ConstructPrelude', cfg='MC_ConstructPrelude.cfg', dump=True, constants=k,
+                         timeout=1200, workers=2, consts=consts))
+    for cfg, inv in (('MC_Construct_negctl1.cfg', 'UnsafeInert'), ('MC_Construct_negctl2.cfg', 'ConfinedStrict')):
+        jobs.append(dict(name=inv, kind='negctl', module='Construct', cfg=cfg, dump=False, constants=small, timeout=600, workers=2))
+    if preludes:
+        jobs.append(dict(name='NoOptIn', kind='negctl', module='ConstructPrelude', cfg='MC_ConstructPrelude_negctl.cfg', dump=False,
+                         constants=None, timeout=600, workers=1))
+    for j in jobs:
+        j['tag'] = '%s_%s' % (pid, j['name'])
+    bykey = {j['name']: j for j in jobs}
+    states = trans = loads = nontrivial = 0
+    pairs, drift, samples = {}, {}, []
+    unsafe_eff = optin = optin_eff = histories = 0
+    t00 = time.time()
+    pool = ProcessPoolExecutor(max_workers=min(JVMS, len(jobs)), mp_context=mp.get_context('fork'))
+    try:
+        futs = [pool.submit(_tlc_job, j) for j in jobs]          # in the order given: the caller lists the large ones first
+        # code -> spec meanwhile: the data files of the repository's suite through the same instruments and the same judgement
+        files = sorted(glob.glob(os.path.join(os.environ.get('VERIF_REPO', '/repo'), 'tests', 'legacy_tests', 'data', '*')))
+        files = [f for f in files if f.rsplit('.', 1)[-1] in ('data', 'loader-error', 'single-loader-error', 'canonical', 'code', 'detect')]
+        with mp.Pool(min(8, PROCS)) as cpool:
+            parts = cpool.map(corpus_work, [(files[i::16], classes) for i in range(16)])
+        corpus_loads = 0
+        for pp, n in parts:
+            corpus_loads += n
+            for kx, p in pp.items():
+                q = pairs.setdefault(kx, {'count': 0, 'doc': p['doc'], 'entry': p['entry'], 'config': 'corpus'})
                 q['count'] += p['count']
-            for kx, d in o['drift'].items():
-                q = drift.setdefault(kx, {'count': 0, 'doc': d['doc'], 'entry': d['entry']})
-                q['count'] += d['count']
-        os.remove(r.dump)
-    # code -> spec: the data files of the repository's suite through the same instruments and the same judgement
-    import glob, multiprocessing as mp
-    files = sorted(glob.glob(os.path.join(os.environ.get('VERIF_REPO', '/repo'), 'tests', 'legacy_tests', 'data', '*')))
-    files = [f for f in files if f.rsplit('.', 1)[-1] in ('data', 'loader-error', 'single-loader-error', 'canonical', 'code', 'detect')]
-    with mp.Pool(16) as pool:
-        parts = pool.map(corpus_work, [(files[i::16], classes) for i in range(16)])
-    corpus_loads = 0
-    for pp, n in parts:
-        corpus_loads += n
-        for kx, p in pp.items():
-            q = pairs.setdefault(kx, {'count': 0, 'doc': p['doc'], 'entry': p['entry'], 'config': 'corpus'})
-            q['count'] += p['count']
-    loads += corpus_loads
+        loads += corpus_loads
+        for fut in as_completed(futs):
+            r = fut.result()
+            j = bykey[r.job]
+            name = j['name']
+            if j['kind'] == 'negctl':
+                if name not in r.violated:
+                    print(r.out[-2000:])
+                    raise SystemExit('machinery failure: negative control %s was not violated (the model is vacuous)' % name)
+                continue
+            if r.violated:
+                print(r.out[-3000:])
+                raise SystemExit('machinery failure: %s.tla violates %s in configuration %s (L does not refine H in the model)' % (j['module'], r.violated, name))
+            tlc.require_ok(r, '%s/%s' % (j['module'], name))
+            states += r.distinct
+            trans += r.generated
+            t1 = time.time()
+            if j['kind'] == 'doc':
+                out = mbt.pmap(work, r.dump, {'classes': classes, 'extra_text': extra_text, 'sample_nodes': j['consts']['MaxNodes']}, procs=PROCS)
+            else:
+                out = mbt.pmap(hist_work, r.dump, {'classes': classes, 'sample_len': j['consts']['MaxSteps']}, chunks=48, procs=PROCS)
+                histories += r.distinct
+            n = sum(o['n'] for o in out)
+            if n != r.distinct:
+                raise SystemExit('machinery failure: replayed %d states of %s, TLC found %d' % (n, name, r.distinct))
+            for o in out:
+                loads += o['loads']
+                nontrivial += o['nontrivial']
+                unsafe_eff += o.get('unsafe_eff', 0)
+                optin += o.get('optin', 0)
+                optin_eff += o.get('optin_effective', 0)
+                samples += o['samples'][:1]
+                for kx, p in o['pairs'].items():
+                    q = pairs.setdefault(kx, dict(p, count=0, config=name))
+                    q['count'] += p['count']
+                for kx, d in o['drift'].items():
+                    q = drift.setdefault(kx, {'count': 0, 'doc': d['doc'], 'entry': d['entry']})
+                    q['count'] += d['count']
+            os.remove(r.dump)
+            print('config %s: %d states, TLC done at +%.1fs (%.1fs), replay %.1fs' % (name, r.distinct, t1 - t00, r.wall, time.time() - t1))
+    finally:
+        pool.shutdown(wait=True, cancel_futures=True)
     if unsafe_eff == 0:
         raise SystemExit('machinery failure: the unsafe loaders showed no effect on any document: instruments are dead')
+    if preludes and optin_eff == 0:
+        raise SystemExit('machinery failure: no registration of a customisation history had any effect on the class it names: the replay is dead')
     # judgement of the distinct (requirement, observation) pairs by TLC
     keys = sorted(pairs, key=repr)
     recs = [{'c': k[0], 'mustErr': k[1], 'undisp': k[2], 'st': k[3], 'ex': k[4], 'ty': list(k[5]), 'eff': list(k[6]), 'free': k[7]} for k in keys]
@@ -716,17 +820,23 @@ def run(v, pid, classes, configs, loader_names):
             continue
         p = pairs[k]
         case = 'structural-use' if why == 'not rejected (undispatched)' else why
-        v.violation({'class': k[0], 'clause': case},
-                    {'entry': p['entry'], 'doc': p['doc'], 'observed': {'st': k[3], 'ex': k[4], 'ty': k[5], 'eff': k[6]},
-                     'mustErr': k[1], 'count': p['count'], 'config': p['config'],
-                     'note': 'loads are run in sequence in one process, unsafe classes first; replay the document after an unsafe load of the same text'})
+        det = {'entry': p['entry'], 'doc': p['doc'], 'observed': {'st': k[3], 'ex': k[4], 'ty': k[5], 'eff': k[6]},
+               'mustErr': k[1], 'count': p['count'], 'config': p['config'],
+               'note': 'loads are run in sequence in one process, unsafe classes first; replay the document after an unsafe load of the same text'}
+        if 'hist' in p:
+            det.update({'history': p['hist'], 'when': p['when'], 'history_text': hist_text(p['hist']),
+                        'note': 'the application performs the customisation history first (ConstructPrelude.tla); when: 0 = loads after '
+                                'the last step, n = the round of loads that is step n'})
+        v.violation({'class': k[0], 'clause': case}, det)
     for dk, d in sorted(drift.items())[:10]:
         v.note('spec-drift %s: %s  (%d loads, e.g. %s via %s)' % (pid, dk, d['count'], d['doc'].strip(), d['entry']))
     v.cov = {'states': states + jstates, 'transitions': trans, 'traces_validated_against_impl': loads, 'exhaustive': True,
-             'documents': states, 'distinct_requirement_observation_pairs_judged_by_tlc': len(keys),
+             'documents': states - histories, 'customisation_histories': histories, 'loads_by_opted_in_classes': optin,
+             'distinct_requirement_observation_pairs_judged_by_tlc': len(keys),
              'distinct_nontrivial': nontrivial, 'unsafe_loads_with_effects': unsafe_eff,
-             'samples': samples[:6] + [{'pair': list(map(str, k)), 'count': pairs[k]['count']} for k in keys[:4]],
-             'rule': 'every reachable state of Construct.tla is one document; non-trivial = some class must reject it; each is '
-                     'loaded through ' + ', '.join(e for c, e in ENTRY if c in classes or c == 'Unsafe'),
-             'configs': {n: c for n, c in configs}, 'live_table_extras': extra_text, 'corpus_loads': corpus_loads}
+             'samples': samples[:8] + [{'pair': list(map(str, k)), 'count': pairs[k]['count']} for k in keys[:4]],
+             'rule': 'every reachable state of Construct.tla is one document, of ConstructPrelude.tla one customisation history; '
+                     'non-trivial = some class must reject it / a tag of it; each is loaded through '
+                     + ', '.join(e for c, e in ENTRY if c in classes or c == 'Unsafe'),
+             'configs': {n: c for n, c in list(configs) + list(preludes)}, 'live_table_extras': extra_text, 'corpus_loads': corpus_loads}
     return v
